@@ -307,7 +307,9 @@ func traverseMapPath(path []string, operatorMap *orderedmap.OrderedMap[string, a
 		opVal, _ := OperatorMapDefs.Get(cutOffPart)
 		withoutArbitraryKey := RemoveElementAfter(path, cutOffPart)
 		newPath := RemoveElementsBeforeIncluding(withoutArbitraryKey, cutOffPart)
-		if len(newPath) < len(path) {
+		// descend only when a client-chosen name was cut out: the definition describes the
+		// members below that name, not the members of the map itself
+		if len(withoutArbitraryKey) < len(path) {
 			if opValMap, ok := opVal.(*orderedmap.OrderedMap[string, any]); ok {
 				return traverseMapPath(newPath, opValMap, isSearchStage)
 			}
@@ -419,6 +421,22 @@ func redactPipelineStage(stage interface{}, redactFieldNames bool, keyPath []str
 						newMap.Set(redactedKey, v)
 					}
 					continue
+				case OperatorMap:
+					// a document keyed by names the client chooses (facet.facets): the names are
+					// not looked up anywhere; each member is walked on its own, one level down
+					if vMap, ok := v.(*orderedmap.OrderedMap[string, any]); ok {
+						newNamedMap := orderedmap.NewOrderedMap[string, any]()
+						for namedEl := vMap.Front(); namedEl != nil; namedEl = namedEl.Next() {
+							name := namedEl.Key
+							redactedName := name
+							if redactFieldNames && !strings.HasPrefix(name, "$") {
+								redactedName = HashName(name)
+							}
+							newNamedMap.Set(redactedName, redactPipelineStage(namedEl.Value, redactFieldNames, append(newKeyPath, name), inSearchStage))
+						}
+						newMap.Set(redactedKey, newNamedMap)
+						continue
+					}
 				case UserDocument:
 					// keys below are user field names: they must not be looked up in the search vocabulary
 					switch vTyped := v.(type) {
